@@ -17,4 +17,8 @@ def run(tier):
                             "reachable graph (and that of further instances) is explored and judged by TLC (Judge_Hist)")
     from ..mgmmodel import model_part
     model_part(v, tier, ["StagnationIsOneOpt"], CLAUSES, ["c04"], seed_off=4)
+    # MGM2: Mgm2.tla; the invariant restricted to the cycles without an accepted offer must hold; the unrestricted one is checked on
+    # the instance of the known finding, which TLC's counterexample - replayed on the real computations - regenerates
+    from ..mgm2model import model_part as mgm2_part
+    mgm2_part(v, tier, ["StagnationIsOneOptSolo"], CLAUSES, ["c04"], seed_off=4, regen=("C04_mgm2_pair.json", "StagnationIsOneOpt", 3))
     return v.finish()
